@@ -26,6 +26,7 @@ type vxC04 struct {
 	conns [2]*Conn
 	m     [2][vxC04N]vxRefFid
 	tag   uint16
+	lean  bool  // two-step runs: users are always given by matching name and number
 	dq    []int // per FidDestroy call: replies queued on the fid's connection and not yet taken at that moment
 }
 
@@ -214,9 +215,15 @@ func (h *vxC04) step(ci int, tc *Fcall) (vxC04Reply, bool) {
 		vxAssert(!reached, class+":does-not-reach-the-implementation")
 		if r.typ == Rerror && !g.silent {
 			// which of several applicable refusals is reported is not fixed by the statement: a walk that would bind a
-			// valid fid may as well be refused for walking from an open fid or from a non-directory (C05's rules)
+			// valid fid may as well be refused for walking from an open fid or from a non-directory (C05's rules), and
+			// a Tauth/Tattach whose user is not given by a matching name and number may be refused for its user
 			otherRule := tc.Type == Twalk && tc.Fid < vxC04N && (len(tc.Wname) > 0 || h.m[ci][tc.Fid].opened)
-			okText := ((g.unknown || g.selfAfid) && r.ename == "unknown fid") || (g.inuse && (r.ename == "fid already in use" || otherRule))
+			userRule := false
+			if tc.Type == Tattach || tc.Type == Tauth {
+				_, named := h.namedUser(tc)
+				userRule = (!named || tc.Unamenum == NOUID) && r.ename == "unknown user"
+			}
+			okText := ((g.unknown || g.selfAfid) && r.ename == "unknown fid") || (g.inuse && (r.ename == "fid already in use" || otherRule)) || userRule
 			vxAssert(okText, class+":error-text")
 		}
 	}
@@ -386,7 +393,11 @@ func vxC04Fid(name string) uint32 {
 
 func (h *vxC04) symUser(tc *Fcall) {
 	u := vxChoose("user", 2)
-	switch vxChoose("uidform", 3) {
+	form := 0
+	if !h.lean {
+		form = vxChoose("uidform", 3)
+	}
+	switch form {
 	case 0: // name and number agree
 		tc.Uname, tc.Unamenum = []string{"u0", "u1"}[u], uint32(u)
 	case 1: // name only
@@ -513,6 +524,7 @@ func (h *vxC04) finish() {
 // H04.hist: setup prefix, one symbolic request, probes, epilogue, probes.
 func vxH04Hist(setup int, withAuth bool, nsym int) {
 	h := vxNewC04(withAuth)
+	h.lean = nsym > 1
 	h.setup(setup)
 	for i := 0; i < nsym; i++ {
 		if !h.sym() {
